@@ -1391,7 +1391,7 @@ class scope(slots_getstate_setstate):
         name_components = object.name.split(".")
         merge_names = False
         for name in name_components[:-1]:
-            child_scope = scope(name=name)
+            child_scope = scope(name=name, primary_id=object.primary_id)
             child_scope.merge_names = merge_names
             primary_parent_scope.adopt(child_scope)
             primary_parent_scope = child_scope
